@@ -470,6 +470,26 @@ func genArg(r *rng) *tnode {
 
 func genOuts(r *rng) []*tnode {
 	e := &tnode{k: 'e'}
+	if r.chance(1, 12) {
+		// result types that implement error without being the interface type error
+		es := registry[registryIndex[reflect.TypeOf(ErrStruct{})]].node
+		pe := &tnode{k: 'P', elem: es}
+		et := registry[registryIndex[reflect.TypeOf(ErrString(""))]].node
+		switch r.intn(6) {
+		case 0:
+			return []*tnode{pe}
+		case 1:
+			return []*tnode{et}
+		case 2:
+			return []*tnode{genType(r, 1), pe}
+		case 3:
+			return []*tnode{genType(r, 1), et}
+		case 4:
+			return []*tnode{pe, e}
+		default:
+			return []*tnode{et, e}
+		}
+	}
 	switch c := r.intn(20); {
 	case c < 5:
 		return []*tnode{e}
